@@ -84,6 +84,9 @@ var cspShapes = []struct{ Name, Value string }{
 	{"nonce-only-in-style-src", "script-src 'self'; style-src 'nonce-styl3'"},
 	{"style-nonce-before-script-nonce", "style-src 'nonce-styl3'; script-src 'nonce-scr1pt'"},
 	{"compact-no-spaces", "default-src 'none';script-src 'nonce-abc123';base-uri 'none'"},
+	// script-src overrides default-src for scripts: the default-src nonce is not the page's script nonce
+	{"default-src-nonce-before-script-src", "default-src 'self' 'nonce-dflt111'; img-src *; script-src 'self' 'nonce-scr222'"},
+	{"default-src-nonce-after-script-src", "script-src 'nonce-scr222' 'self'; default-src 'nonce-dflt111'"},
 }
 
 func cspValue(name string) string {
@@ -625,7 +628,7 @@ func (k *counters) note(cs Case, n int) {
 
 // Run is the C20 check.
 func Run(c *core.Ctx) {
-	c.Rule = "case = document (29 fixed well-formed documents in varied spellings incl. CRLF, Latin-1 bytes and a UTF-8 BOM, a frameset document, seeded generated documents, 64 KB and 1 MB documents; 4 MB in thorough) x backend Content-Encoding {none,gzip,br,zstd,deflate,compress,'gzip, br'} x Content-Type (7) x CSP header shape (7) x request {plain, HX-Request} x backend skip marker x {Content-Length, chunked} x status {200,404,500}; every document meets every (encoding, content type) pair and, in the modified class, every CSP shape; the remaining dimensions are drawn per case from the seed; three canonical documents get the full cross product; non-trivial = case in the modified class (html, understood encoding, not skipped) - distinct by (document, configuration) hash"
+	c.Rule = "case = document (29 fixed well-formed documents in varied spellings incl. CRLF, Latin-1 bytes and a UTF-8 BOM, a frameset document, seeded generated documents, 64 KB and 1 MB documents; 4 MB in thorough) x backend Content-Encoding {none,gzip,br,zstd,deflate,compress,'gzip, br'} x Content-Type (7) x CSP header shape (9) x request {plain, HX-Request} x backend skip marker x {Content-Length, chunked} x status {200,404,500}; every document meets every (encoding, content type) pair and, in the modified class, every CSP shape; the remaining dimensions are drawn per case from the seed; three canonical documents get the full cross product; non-trivial = case in the modified class (html, understood encoding, not skipped) - distinct by (document, configuration) hash"
 	c.Assume("golang.org/x/net/html is the reference HTML5 parser/serialiser for deciding that two byte strings are the same document (the proxy uses the same library, so a parser defect shared by both sides is invisible)")
 	c.Assume("the harness's zstd / deflate / compress bodies are valid streams of those formats (zstd: stored blocks); only their opacity to the proxy matters")
 	c.Assume("the client sends an explicit Accept-Encoding, so Go's transport performs no transparent decompression on either hop")
